@@ -65,6 +65,8 @@ pub enum Op {
     Restart,
     /// set the snapshot bookkeeping through the storage seam: versions-since and/or age in µs
     SeedSnap { c: u8, since: Option<u32>, age_us: Option<i64> },
+    /// restart the server(s) with other snapshot targets
+    Reconfig { days: i64, versions: u32 },
 }
 
 impl Op {
@@ -80,6 +82,7 @@ impl Op {
             Op::Advance { us } => format!("advance {us}us"),
             Op::Restart => "restart".into(),
             Op::SeedSnap { c, since, age_us } => format!("seed c{c} since={since:?} age_us={age_us:?}"),
+            Op::Reconfig { days, versions } => format!("restart with targets days={days} versions={versions}"),
         }
     }
 }
